@@ -8,7 +8,7 @@ RULE = ("seeded designs accepted by the block constructor; synthesize_trials wit
         "accepted and >=2 strategies ran to completion or raised; distinct = (design skeleton, peer, transport)")
 ASSUMPTIONS = ["fake peers stay within the solver contract (genuine models, real output formats)",
                "real pyunigen terminates the process on an unsatisfiable formula; the fake answers 'no samples' instead"]
-BUDGET = {"quick": 45, "thorough": 900}
+BUDGET = {"quick": 300, "thorough": 900}
 RUNS = {"quick": 3000, "thorough": 400000}
 STRATS = ["IterateSATGen", "RandomGen", "CMSGen", "UniGen"]
 
